@@ -106,8 +106,7 @@ func (v *Vec) Off(l string, o int, zeroIsUnset bool) {
 // Bytes appends a byte slice (length and content hash) starting at index from.
 func (v *Vec) Bytes(l string, b []byte, from int) {
 	if from > len(b) {
-		v.I(l+".short", int64(len(b)))
-		return
+		from = len(b)
 	}
 	b = b[from:]
 	h := uint64(14695981039346656037)
